@@ -37,6 +37,16 @@ theorem counter_bool_number :
     (Elem.leaf .element { const := some (.num (.int 1)) }).accepts env0 (.bool true) = false := by
   refine ⟨by decide +kernel, by decide +kernel, by decide +kernel⟩
 
+/-- finding C17-int-float-multipleOf: `multipleOf=2` and `multipleOf=2.0` compare equal (`2 == 2.0`), but the
+    validator takes the exact `%` path for an int parameter and the float-quotient path for a float one; on
+    `2^53 + 1` (odd, and rounded to `2^53` by the conversion to double) the first rejects and the second accepts.
+    This is the hypothesis the congruence proof forces (same *spelling* of `multipleOf`), run at the excluded point. -/
+theorem counter_int_float_multipleOf :
+    elemEq (Elem.leaf .element { multipleOf := some (.int 2) }) (Elem.leaf .element { multipleOf := some (.flt 2 1) }) = true ∧
+    (Elem.leaf .element { multipleOf := some (.int 2) }).accepts env0 (.num (.int 9007199254740993)) = false ∧
+    (Elem.leaf .element { multipleOf := some (.flt 2 1) }).accepts env0 (.num (.int 9007199254740993)) = true := by
+  refine ⟨by decide +kernel, by decide +kernel, by decide +kernel⟩
+
 /-- equality never identifies different element classes (subclass priority makes `Element() == String()` false
     both ways), and ignores class names -/
 theorem classes_matter : elemEq (Elem.leaf .element) (Elem.leaf .string) = false ∧
